@@ -276,6 +276,9 @@ def process_case(rep, spec, index, kinds):
             rep.count(f"process_{sa}_{sb}")
         return
     rep.require("process reports feed compositions as mass fractions", all(x.type == "weight" for x in b.feed_compositions), case)
+    if proc.runaway(a, sc.m0):
+        rep.count("process_runaway_trajectory_skipped")
+        return
     bad = None
     n = len(a.time)
     if len(b.time) != n:
